@@ -294,6 +294,20 @@ def r_stack_discipline(ctx, rule):
             uses[name].setdefault(cp.split("::")[-1], []).append("%s:%s" % (fn.name, t.get("ln")))
     for name, (role, allowed) in sorted(STACK_ROLES.items()):
         if not uses[name]:
+            # the field may still be there, but no longer a container: a single slot where the role needs a stack / queue
+            holder = None
+            for a in prog.adts.values():
+                if a.get("local") and a["path"].startswith("rusty_basic::interpreter"):
+                    for v in a["variants"]:
+                        for x in v["fields"]:
+                            if x["name"] == name:
+                                holder = (a, x)
+            if holder is not None and not any(w in holder[1]["ty"] for w in ("Vec<", "VecDeque<")):
+                ctx.violation(rule, "%s:%s" % (rule, name), "%s:%s" % (holder[0].get("file"), holder[0].get("line")),
+                              "%s (%s) is kept in a single place (%s: %s) and not in a container: what one activation puts "
+                              "there is overwritten by an activation that runs before it is taken out again (a call made while "
+                              "the result or argument of another call is pending)" % (name, role, name, holder[1]["ty"]))
+                continue
             raise CheckError("no user of VM container %s found" % name)
         if allowed and isinstance(allowed[0], tuple):
             # several admissible disciplines: the uses must fit one of them entirely
@@ -367,6 +381,12 @@ def error_dispatch(prog):
         sws = [s for s in mir.enum_switches(prog, f.body) if s.adt.endswith("::ErrorHandler")]
         for sw in sws:
             hits.append((f, sw))
+    if len(hits) > 1:
+        # a match that only filters the handler (`Address(_) if .. => None, h => h`) may sit in front of the dispatch: the
+        # dispatch is the match with an arm of its own for every kind of handler, the last of them in the function
+        full = [(f, sw) for f, sw in hits if len(sw.arms) >= 3]
+        if full:
+            hits = [max(full, key=lambda x: x[1].bb)]
     if len(hits) != 1:
         raise CheckError("interpret: expected one match over ErrorHandler (in it or a helper), found %d" % len(hits))
     return hits[0]
